@@ -433,7 +433,32 @@ def _text(rng):
     return corpus.window(rng, 10)
 
 
+SWEEP_KINDS = ['errors', 'pep8', 'parse', 'tokenize', 'custom', 'names', 'loadpath']
+
+
+def make_sweep_plan(seed, idx):
+    """Systematic part of the C18 search, aimed at first-use races: cold start, three threads making
+    the very same call (kind x text x version in enumeration order), creeping forward in near
+    lockstep for the whole run."""
+    rng = random.Random('C18-sweep/%d' % seed)
+    texts = STATEFUL_TEXTS + corpus.SNIPPETS
+    kind = SWEEP_KINDS[idx % len(SWEEP_KINDS)]
+    k = idx // len(SWEEP_KINDS)
+    text = texts[k % len(texts)]
+    version = corpus.VERSIONS[(k // len(texts) + k) % len(corpus.VERSIONS)]
+    op = {'k': kind, 'v': version, 'text': text}
+    nthreads = 2 + idx % 2
+    threads = [[dict(op)] for _ in range(nthreads)]
+    if rng.random() < 0.5:
+        threads[-1].append({'k': rng.choice(SWEEP_KINDS[:6]), 'v': version, 'text': rng.choice(texts)})
+    cfg = {'quantum': rng.choice([10, 30, 100]), 'warm': [], 'first': rng.randrange(nthreads), 'sequential': False,
+           'perm': None, 'rounds': 1, 'pgen_atomic': idx % 4 < 2, 'burst': 8000, 'sweep': [kind, k % len(texts), version]}
+    return {'sim': 'threadsim', 'seed': seed, 'config': cfg, 'threads': threads, 'switches': [], 'more': []}
+
+
 def make_plan(seed, tier='quick'):
+    if seed % 4 == 1:
+        return make_sweep_plan(seed, seed // 4)
     rng = random.Random('C18/%d' % seed)
     nver = rng.choice([1, 1, 2, 3])
     versions = rng.sample(corpus.VERSIONS, nver)
